@@ -15,7 +15,7 @@ import (
 
 func init() {
 	checks["C19"] = checkC19
-	explanations["C19"] = "Structural necessary conditions: (effect confinement, E2) no function reachable from a wire entry point stores to a package-level variable or updates a package-level map (registries are written only by Register*/init); no method of http.Handler or of the four server types stores through its receiver (one handler and one set of responders may be shared by all sessions); the sqlite store keeps no state in memory and signs tokens only with the secret it read back from the database (so concurrent first sessions converge on one secret); (guarded-by, E4 lockset) in package serviceinfo every access to bufPipe.buf and bufPipe.err happens with the embedded mutex held — one reviewed exception: the read of err ordered by the close of the wake-up channel — and the readers and closing channels of UnchunkWriter are closed only under readerMu / closeMu. Also: no mutating method is called on a package-level object from wire-reachable code; UnchunkWriter.readers is sent on only under readerMu after the closing indicator was seen open under that lock (or by the unique closer) and closed only after the indicator; sqlite.Open limits its pool to one connection. Not decided: data races through shared user callbacks or cached keys, deadlock freedom, lost wake-ups, isolation inside other state backends, schedules as executions."
+	explanations["C19"] = "Structural necessary conditions: (effect confinement, E2) no function reachable from a wire entry point stores to a package-level variable or updates a package-level map (registries are written only by Register*/init); no method of http.Handler or of the four server types stores through its receiver (one handler and one set of responders may be shared by all sessions); the sqlite store keeps no state in memory and signs tokens only with the secret it read back from the database (so concurrent first sessions converge on one secret); (guarded-by, E4 lockset) in package serviceinfo every access to bufPipe.buf and bufPipe.err happens with the embedded mutex held — one reviewed exception: the read of err ordered by the close of the wake-up channel — and the readers and closing channels of UnchunkWriter are closed only under readerMu / closeMu. Also: no mutating method is called on a package-level object from wire-reachable code; UnchunkWriter.readers is sent on only under readerMu after the closing indicator was seen open under that lock (or by the unique closer) and closed only after the indicator; sqlite.Open limits its pool to one connection. Fields shared between a closer and the producer of the service-info writer are accessed under one common mutex; the one unlocked error read is accepted only while the publication order (store the error, then close the wake-up channel) is visible in every closer. Not decided: data races through shared user callbacks or cached keys, deadlock freedom, lost wake-ups, isolation inside other state backends, schedules as executions."
 }
 
 // lockAtoms: held:<canonical mutex address> gen on Lock, kill on Unlock.
